@@ -87,13 +87,23 @@ def ideal_counts(circuit, shots):
 class Recorder:
     """wraps measurement factory, allocator and (ideal) sampler; one record per sampling_estimate call"""
 
+    calls = 0
+
     def __init__(self, factory, allocator):
         self._f, self._a = factory, allocator
         self.fcalls, self.acalls, self.scalls = [], [], []
+        # the factory's declared result is an Iterable: every third recorder hands out a one-shot iterator, every third a
+        # generator, the others the container the wrapped factory returned
+        Recorder.calls += 1
+        self.shape = Recorder.calls % 3
 
     def factory(self, op):
-        out = self._f(op)
+        out = list(self._f(op))
         self.fcalls.append(list(out))
+        if self.shape == 1:
+            return iter(out)
+        if self.shape == 2:
+            return (m for m in out)
         return out
 
     def allocator(self, op, pauli_sets, total):
